@@ -148,12 +148,12 @@ class CCodeMapper(SimplifyingSortingStringifyMapper):
             if is_zero(expr.exponent):
                 return "1"
             elif is_zero(expr.exponent - 1):
-                if enclosing_prec >= PREC_PRODUCT:
-                    # As for the square below: an enclosing * / % decides
-                    # about same-level parentheses by the class of its
-                    # operand, and it sees a Power, not the base.
-                    return self.rec(expr.base, PREC_POWER)
-                return self.rec(expr.base, enclosing_prec)
+                # The enclosing operator decides about parentheses by the
+                # precedence and, in places (* / %, comparisons of & ^ |),
+                # by the class of its operand -- and it sees a Power, not
+                # the base. Write the base the way an operand of ** is
+                # written: anything but an atom gets its parentheses.
+                return self.rec(expr.base, PREC_POWER)
             elif is_zero(expr.exponent - 2):
                 if enclosing_prec >= PREC_PRODUCT:
                     # The square is emitted as a product. As an operand
